@@ -181,9 +181,17 @@ func c08RunStream(ch string, r io.ReadCloser, w io.Writer) (err error, pv any) {
 func c08Run(c *Ctx) {
 	Flags{}.Apply()
 	var caseNo int64
-	sizes := []int{6, 40}
+	// sizes 6 and 40: ordinary lines; -1 / -2: six lines with a 70 000- / 200 000-byte line in fourth position (longer
+	// than the reader's line limit: the run must fail anyway, and a Read that fails INSIDE that line must not turn the
+	// failure into success)
+	sizes := []int{6, 40, -1, -2}
 	for _, nl := range sizes {
 		lines := c08Input(nl)
+		if nl < 0 {
+			lines = c08Input(6)
+			long := `{"t":{"$date":"2024-05-01T10:00:00.000+00:00"},"s":"I","c":"COMMAND","id":51803,"ctx":"conn9","msg":"Slow query","attr":{"ns":"db.c","command":{"find":"c","filter":{"blob":"` + strings.Repeat("long line payload ", map[int]int{-1: 3900, -2: 11200}[nl]) + `"},"$db":"db"}}}`
+			lines = append(append(append([]string{}, lines[:3]...), long), lines[3:]...)
+		}
 		for _, final := range []bool{true, false} {
 			text := strings.Join(lines, "\n")
 			if final {
@@ -196,6 +204,12 @@ func c08Run(c *Ctx) {
 			}
 			// ---------------- reader faults
 			chunks := []int{1, 7, 512, 4096}
+			if nl < 0 {
+				chunks = []int{4096, 65536, 1000}
+				if !c.Thorough() {
+					chunks = []int{4096, 65536}
+				}
+			}
 			if nl > 6 {
 				chunks = []int{7, 512, 4096}
 				if !c.Thorough() {
@@ -287,7 +301,7 @@ func c08Run(c *Ctx) {
 			// ---------------- damaged gzip streams
 			zb := gz([]byte(text))
 			stride := 1
-			if nl > 6 && !c.Thorough() {
+			if (nl > 6 || nl < 0) && !c.Thorough() {
 				stride = 7
 			}
 			for off := 0; off < len(zb); off += stride {
@@ -433,6 +447,37 @@ func c08CLI(c *Ctx) {
 				c.Violate("cli:disk-full:exit-0", fmt.Sprintf("%s: every write fails with ENOSPC but the run exits 0 (stderr %q)", d.name, trunc(string(r.Stderr), 120)), 0, map[string]any{"kind": "cli-device", "device": d.name, "args": d.run.Args}, nil)
 			} else {
 				c.Outcome("device-error-reported")
+			}
+		}
+		// the same devices at growing volumes: output buffers of any size are flushed (and fail) mid-run from some
+		// volume on, and only then does a forgotten error of a NON-final flush show
+		for _, vol := range []int{1, 50, 400, 2000, 6000, 20000} {
+			if vol > 6000 && !c.Thorough() {
+				continue
+			}
+			big := strings.Join(c08Input(vol), "\n") + "\n"
+			bigPath := filepath.Join(dir, "big.log")
+			os.WriteFile(bigPath, []byte(big), 0o644)
+			for _, d := range []dev{
+				{"stdout=/dev/full, file input", CLIRun{Bin: c.CLI, Args: []string{"redact", bigPath}, Dir: dir, StdoutTo: "/dev/full"}},
+				{"--outputFile /dev/full, file input", CLIRun{Bin: c.CLI, Args: []string{"redact", bigPath, "--outputFile", "/dev/full"}, Dir: dir}},
+				{"--outputFile /dev/full, stdin input", CLIRun{Bin: c.CLI, Args: []string{"redact", "--outputFile", "/dev/full"}, Dir: dir, StdinMode: "pipe", Stdin: []byte(big)}},
+				{"stdout=/dev/full, stdin input", CLIRun{Bin: c.CLI, Args: []string{"redact"}, Dir: dir, StdoutTo: "/dev/full", StdinMode: "pipe", Stdin: []byte(big)}},
+			} {
+				r, err := runCLI(d.run)
+				c.Eval(1)
+				c.Count("cli_runs", 1)
+				c.Distinct(fmt.Sprintf("dev %s x %d lines", d.name, vol))
+				if err != nil {
+					c.HarnessError("C08 CLI: %v", err)
+					return
+				}
+				if r.Exit == 0 && r.Signal == "" {
+					c.Outcome("device-error-swallowed")
+					c.Violate("cli:disk-full:exit-0", fmt.Sprintf("%s, %d input lines (%d bytes): every write fails with ENOSPC but the run exits 0 (stderr %q)", d.name, vol, len(big), trunc(string(r.Stderr), 120)), int64(vol), map[string]any{"kind": "cli-device", "device": d.name, "lines": vol}, nil)
+				} else {
+					c.Outcome("device-error-reported")
+				}
 			}
 		}
 		// stdout is a pipe whose reader has gone away
